@@ -55,7 +55,11 @@ def run(chk):
                 "math/big; (2) the OR node expStep as a component: either branch real, every leaf altered, forgery with both branches simulated; (3) random good "
                 "keys (48..96-bit primes, 1..4 bases): BuildProof, VerifyProof, JSON round trip, every leaf enumerated by reflection and classified by the "
                 "grammar, TLC's cases applied to a seeded sample in worker processes: must-reject cases accepted, panics (also in the verifier's goroutines) and "
-                "rejected honest proofs are VIOLATIONs. (4) ZkProof.tla (Group variant): the representation-proof engine of the Camenisch-Michels sub-proofs in the concrete group "
+                "rejected honest proofs are VIOLATIONs. (3b) KeyProofDeps.tla: the statement graph of ValidKeyProof (which relation proof uses which prover-supplied Pedersen "
+                "commitment as a base, which commitments are left-hand sides of range proofs) under a RE-PROVING adversary that sends commitments as 0 modulo the group prime "
+                "and hashes the zeros the verifier will reconstruct; invariant Sound (accept => safe-prime product and square bases), violated without the nonzero guard (D29). "
+                "Replay: every scenario is built for real by a cheating prover inside the package (tag verif) for the representatives 0, GroupPrime, 2*GroupPrime - a modulus "
+                "(2a^3+1)(2b+1) and bases with Jacobi symbol -1 - sent through JSON and given to the unmodified VerifyProof. (4) ZkProof.tla (Group variant): the representation-proof engine of the Camenisch-Michels sub-proofs in the concrete group "
                 "zkproof.BuildGroup(23) - Pedersen, multiplication-type, constant-left-hand-side and single-base statements with prover-supplied bases over all residues "
                 "(subgroup, non-residues, -1, 0); invariants Complete (for bases in the subgroup), Sound2 (special soundness), Absorbing; every case (48,384) is evaluated by "
                 "the real engine and compared exactly. Non-trivial = distinct (leaf class, alteration) / (modulus shape, component) / engine case.")
@@ -96,11 +100,29 @@ def run(chk):
         print("NOTE C17: " + res["notes"]["observation_range"])
     res = vplib.vh("kp", ["full", "--in", path, "--tier", T, "--seed", seed], timeout=3300)
     chk.add_replay(res, "full_proof")
-    # the representation-proof engine underneath, in a concrete toy group (ZkProof.tla)
-    zkstage.run(chk, "group")
     n = res.get("notes", {})
     if not res["violations"] and (res.get("counts", {}).get("keys", 0) < 2 or n.get("leaf_kind_x_branch_altered", 0) < 20 or n.get("class_kind_pairs_executed", 0) < 300):
         raise vplib.Machinery("full-proof replay is vacuous: %s" % n)
+    # the re-proving adversary with degenerate commitments (KeyProofDeps.tla)
+    r = vplib.tlc_mc("KeyProofDeps", "KeyProofDeps.mc.cfg", timeout=600)
+    chk.add_tlc(r, "KeyProofDeps", "KeyProofDeps.mc.cfg", "Sound, Honest over every set of zeroed commitments, every lie and every assignment of false relations")
+    r = vplib.tlc("KeyProofDeps", "KeyProofDeps.asis.cfg", timeout=300, allow_fail=True)
+    if "Sound" not in r.invariant_violated:
+        raise vplib.Machinery("KeyProofDeps: without the nonzero guard Sound should be violated (vacuity)")
+    g = vplib.tlc_mc("KeyProofDepsGen", "KeyProofDeps.gen.cfg", workers=1, timeout=600)
+    scen = sorted(set(g.tagged_raw_json("K")))
+    chk.add_tlc(g, "KeyProofDepsGen", "KeyProofDeps.gen.cfg", "%d replayable scenarios" % len(scen))
+    if len(scen) < 10:
+        raise vplib.Machinery("only %d zero-commitment scenarios" % len(scen))
+    sp = os.path.join(vplib.sub("c17"), "zeroforge.ndjson")
+    open(sp, "w").write("\n".join(scen) + "\n")
+    res = vplib.vh("kp", ["zeroforge", "--in", sp, "--tier", T, "--seed", seed], timeout=3000)
+    c = res.get("counts", {})
+    if not res["violations"] and (c.get("zeroforge:spec=true:code=true", 0) < 1 or c.get("zeroforge:spec=false:code=false", 0) < 30):
+        raise vplib.Machinery("zero-commitment replay is vacuous: %s" % c)
+    chk.add_replay(res, "zero_commitment_forgeries")
+    # the representation-proof engine underneath, in a concrete toy group (ZkProof.tla)
+    zkstage.run(chk, "group")
     chk.exhaustive = False
 
 
